@@ -149,9 +149,13 @@ def parse_function(fcn_str: str) -> tuple:
     fcn_ast = ast.fix_missing_locations(fcn_ast)
     dep_list = []
     for node in ast.walk(fcn_ast):
+        # Attribute access (and therefore method calls), lambdas, comprehensions and similar constructs could reach Python internals, so reject them outright
+        assert not isinstance(node, (ast.Attribute, ast.Lambda, ast.ListComp, ast.SetComp, ast.DictComp, ast.GeneratorExp, ast.NamedExpr, ast.Await, ast.Yield, ast.YieldFrom, ast.Starred)), f"Unsupported construct '{type(node).__name__}' in function '{fcn_str}'"
         if isinstance(node, ast.Name) and node.id not in supported_functions:
             dep_list.append(node.id)
-        elif isinstance(node, ast.Call) and hasattr(node, "func") and hasattr(node.func, "id"):
+        elif isinstance(node, ast.Call):
+            # Only direct calls by name are allowed - this rules out calling the result of another expression
+            assert isinstance(node.func, ast.Name), f"Only calls to supported functions are allowed (in {fcn_str})"
             assert node.func.id in supported_functions, f"Only calls to supported functions are allowed ({node.func.id} in {fcn_str} is not supported)"
     compiled_code = compile(fcn_ast, filename="<ast>", mode="eval")
 
